@@ -227,8 +227,9 @@ func genDV(t *rapid.T, label string, near *spec.Civil) dv {
 			c = spec.Civil{Y: y, M: near.M, D: d}
 		}
 	}
-	if c.Y == 1 && c.M == 1 && c.D == 1 {
-		c.D = 2
+	// (0001-01-01 - the zero value in UTC - is a date like any other as far as comparisons go)
+	if rapid.IntRange(0, 40).Draw(t, label+".first-day") == 0 {
+		c = spec.Civil{Y: 1, M: 1, D: 1}
 	}
 	v := dv{C: c}
 	if rapid.IntRange(0, 2).Draw(t, label+".repr") == 0 {
